@@ -2,7 +2,7 @@
 REG_DRAFT = dict(
     engine='E1-enum',
     technique='bounded-exhaustive enumeration of all ordered pairs over a pool of literal-syntax values, evaluated by the real interpreter, compared with structural identity computed outside the interpreter; equivalence laws checked over the whole observed relation',
-    text="A pool of ~80 literal-syntax values of nesting <=2 (ints incl. i64 extremes, floats incl. 0.0/-0.0 and a 1e100-sized one, strings incl. empty and non-ASCII, lists, tuples, dicts incl. the same entries in a different insertion order, Option, Result, Bool, Unit, two user structs with the same fields, a user enum). Every ordered pair (a, b), each side written as its own literal, is evaluated as `a == b` and `a != b` on the real interpreter; every value is also compared with itself through one variable (`let v = e  v == v`) and through two variables. Oracle: `a == b` is True exactly when the two values are structurally identical (computed in Python from the pool's own description and cross-checked against the partition induced by Garden's printed forms), `!=` is the negation, and the observed relation is reflexive, symmetric and transitive over all triples. Exhaustive over pool x pool.",
+    text="A pool of ~90 values that have literal syntax of nesting <=2 (ints incl. i64 extremes, floats incl. 0.0/-0.0 and a 1e100-sized one, strings incl. empty and non-ASCII, lists, tuples, dicts incl. the same entries in a different insertion order, Option, Result, Bool, Unit, two user structs with the same fields, a user enum; 13 of them built by computation rather than written as a literal, e.g. an empty list obtained by filtering). Every ordered pair (a, b), each side written as its own literal, is evaluated as `a == b` and `a != b` on the real interpreter; every value is also compared with itself through one variable (`let v = e  v == v`) and through two variables. Oracle: `a == b` is True exactly when the two values are structurally identical (computed in Python from the pool's own description and cross-checked against the partition induced by Garden's printed forms), `!=` is the negation, and the observed relation is reflexive, symmetric and transitive over all triples. Exhaustive over pool x pool. Thorough tier: the pool is extended by every pool value wrapped in a list, in Some(...) and in a pair (about 380 values, 145k ordered pairs).",
     note="Values outside the pool (deeper nesting, functions, closures, namespaces) are not covered. Struct literals that list the same fields in a different order are left out: they print differently, so the statement does not say whether they are the same value.",
     design_ref='DESIGN.md §6 C13',
 )
@@ -13,6 +13,7 @@ from ..core import Machinery
 PREFIX = ("struct Foo { f: Int, g: String }\n"
           "struct Bar { f: Int, g: String }\n"
           "struct Pt { v: Float }\n"
+          "struct Bx<T> { f: T }\n"
           "enum Col { Red, Green, Cust(Int), Other(Int) }\n")
 
 MAXI, MINI = 2**63 - 1, -2**63
@@ -61,6 +62,16 @@ def pool():
         RED, GREEN, Cust(I(1)), Cust(I(2)), Other(I(1)),
         L(RED), Some(RED), T(RED, I(1)), L(ST("Foo", ("f", I(1)), ("g", S("a")))), Some(ST("Pt", ("v", F("1.5")))),
     ]
+    # the same values (all have literal syntax) built by computation instead of a literal: "values built separately"
+    def computed(src, like):
+        return ("(" + src + ")", like[1], like[2])
+    P += [
+        computed("1 + 1", I(2)), computed('"a" ^ "b"', S("ab")), computed("0.5 +. 1.0", F("1.5")),
+        computed("[1, 2].filter(fun(x: Int) { x < 2 })", L(I(1))), computed("[1].filter(fun(x: Int) { x > 1 })", L()), computed('["a"].filter(fun(x: String) { x == "b" })', L()),
+        computed("[1].first()", Some(I(1))), computed("[1].get(5)", NONE),
+        computed("[1, 2].slice(0, 0)", L()), computed("[1, 2].slice(0, 1)", L(I(1))), computed("[[1, 2].slice(0, 0)]", L(L())),
+        Some(L()), computed("Some([1, 2].slice(0, 0))", Some(L())), ST("Bx", ("f", L())), computed("Bx{ f: [1, 2].slice(0, 0) }", ST("Bx", ("f", L()))),
+    ]
     return P
 
 
@@ -87,6 +98,15 @@ def operand(src):
 
 def run(ctx):
     P = pool()
+    if not ctx.quick:
+        # thorough: every pool value once more inside each of three unary contexts
+        P = P + [L(v) for v in P] + [Some(v) for v in P] + [T(v, I(1)) for v in P]
+        seen, Q = set(), []
+        for v in P:
+            if v[0] not in seen:
+                seen.add(v[0])
+                Q.append(v)
+        P = Q
     n = len(P)
     ctx.bound("pool_values", n)
     ctx.bound("nesting", 2)
@@ -160,7 +180,7 @@ def run(ctx):
                 extra[what][key] = (e, ne)
 
     def cli_of(i, j):
-        return "garden run -c '" + (PREFIX if any(t in P[i][0] + P[j][0] for t in ("Foo", "Bar", "Pt", "Red", "Green", "Cust", "Other")) else "") + f"println(string_repr({operand(P[i][0])} == {operand(P[j][0])}))'"
+        return "garden run -c '" + (PREFIX if any(t in P[i][0] + P[j][0] for t in ("Foo", "Bar", "Pt", "Bx", "Red", "Green", "Cust", "Other")) else "") + f"println(string_repr({operand(P[i][0])} == {operand(P[j][0])}))'"
 
     n_true = n_false = 0
     for (i, j) in pairs:
@@ -218,9 +238,10 @@ def run(ctx):
         raise Machinery("vacuous: == was never True / never False, or the pool has no pair of distinct literals for the same value")
     ctx.add(states=len(pairs) + 2 * n, transitions=executions, evaluations=2 * len(pairs) + 4 * n, nontrivial=n_same + sum(1 for i, j in pairs if kinds[i] == kinds[j] and canon[i] != canon[j]))
     ctx.sample({"a": P[9][0], "b": P[9][0], "a == b": EQ[(9, 9)], "expected": True})
-    ctx.sample({"a": P[47][0], "b": P[48][0], "a == b": EQ[(47, 48)], "expected": canon[47] == canon[48]})
+    i47 = next(i for i in range(n) if P[i][0] == 'Dict["a" => 1, "b" => 2]')
+    ctx.sample({"a": P[i47][0], "b": P[i47 + 1][0], "a == b": EQ[(i47, i47 + 1)], "expected": canon[i47] == canon[i47 + 1]})
     ctx.sample({"a": P[1][0], "b": P[20][0], "a == b": EQ[(1, 20)], "expected": False})
     ctx.assume("structural identity: same constructor/type name and identical parts; floats by bit pattern (so 0.0 and -0.0 differ, as their printed forms do); dicts by their set of entries")
-    return (f"all {len(pairs)} ordered pairs over a pool of {n} literal-syntax values (each side its own literal), `==` and `!=`, 100 pairs per program; plus every value against itself through one and two variables. "
+    return (f"all {len(pairs)} ordered pairs over a pool of {n} values that have literal syntax (each side written out separately; 13 of the base pool are computed instead of written as a literal), `==` and `!=`, 100 pairs per program; plus every value against itself through one and two variables. "
             "Oracle: == is True exactly for structurally identical values (Python-side description, cross-checked against Garden's printed forms), != is its negation, and the observed relation is reflexive, symmetric and transitive over all triples. "
             "Non-trivial = pairs of identical values plus pairs of different values of the same kind.")
